@@ -203,7 +203,10 @@ def full_layers(cfg, stage):
 
 def stage_input(cfg, stage, d, pass_):
     g = torch.Generator().manual_seed(cfg.seed * 7919 + stage * 104729 + d * 1299709 + pass_ * 15485863)
-    return torch.randn(*cfg.lead, cfg.batch, cfg.din, generator=g, dtype=DT)
+    # `ragged`: micro-batches of different sizes inside one accumulation window (variable-length sequences, a short last
+    # batch): every micro-batch's second moment still enters the factor with equal weight
+    rows = cfg.batch + ([0, 3, 1][pass_ % 3] if getattr(cfg, 'ragged', False) else 0)
+    return torch.randn(*cfg.lead, rows, cfg.din, generator=g, dtype=DT)
 
 
 def run_real(cfg, sched_seed=0):
